@@ -187,6 +187,31 @@ var c14Binds = []struct{ key, action string }{
 	{"ctrl-s", "reload(GEN 2 {+f})+reload(GEN 1 {f})"},
 	{"ctrl-x", "execute-silent(EX 7 {+f})"},
 	{"ctrl-v", "transform(TR 2 {f})"},
+	// the rest of the action vocabulary (robustness only: no oracle but "no crash, no hang, clean exit")
+	{"f1", "change-border-label(BL)+change-header-label(HL)+change-input-label(IL)+change-preview-label(PL)"},
+	{"f2", "change-ghost(gh)+change-pointer(>>)"},
+	{"f3", "close"},
+	{"f4", "disable-search"},
+	{"f6", "enable-search"},
+	{"f7", "hide-header+hide-preview+hide-input"},
+	{"f8", "show-preview+show-input+show-header"},
+	{"f9", "jump-accept"},
+	{"f11", "next-selected"},
+	{"f12", "prev-selected"},
+	{"ctrl-b", "preview-bottom+preview-up"},
+	{"ctrl-d", "preview-top+preview-down"},
+	{"ctrl-e", "preview-half-page-down+preview-half-page-up+preview-page-up"},
+	{"ctrl-f", "print(x)+ignore"},
+	{"ctrl-g", "rebind(alt-a,alt-b)"},
+	{"ctrl-k", "unbind(alt-a,alt-b)"},
+	{"ctrl-l", "toggle-bind(alt-c)"},
+	{"ctrl-n", "next-history"},
+	{"ctrl-p", "prev-history"},
+	{"ctrl-t", "toggle-track-current"},
+	{"ctrl-u", "track-current"},
+	{"ctrl-w", "toggle-preview-wrap+untrack-current"},
+	{"ctrl-y", "transform-border-label(TQ 3)+transform-ghost(TQ 3)+transform-header(TQ 4)+transform-header-label(TQ 3)+transform-input-label(TQ 3)+transform-list-label(TQ 3)+transform-preview-label(TQ 3)"},
+	{"ctrl-a", "transform-nth(TQ 5)"},
 }
 
 func genHostileInput(r *zsim.Rng, cols, rows int) sysEvent {
